@@ -93,6 +93,6 @@ def run(chk, tier, jobs, deadline):
                            "all their requests were answered and read; readiness is judged after the control interface has been "
                            "serviced until it has nothing left to do (at most 8 rounds of 257 xcm_finish calls)")
     msgfamily.run_configs(chk, "h_msg", configs(tier), PREFIXES, jobs,
-                          deadline or (420 if tier == "quick" else 2700),
+                          deadline or (420 if tier == "quick" else 1500),
                           counter_names={0: "quiescent_points_evaluated"})
     run_ctl_part(chk, tier, jobs)
